@@ -12,7 +12,7 @@ META = {
             "each written as disjunction of equalities, bit-level DNF, lookup table, Tuple/Qlist-of-bool argument, and as a value function g with "
             "Grover(g, y) (oraclize path). The exact output distribution of Grover(...).circuit() on |0..0> over output_qubits (sparse exact "
             "simulation) must (i) equal, within 1e-9, the distribution of the same library construction fed with an ideal minterm xor-oracle of S "
-            "(hence not depend on the form), (ii) rank every solution above every non-solution, (iii) give the solutions total probability > 1/2, "
+            "(hence not depend on the form) and that of a hand-assembled reference circuit of the documented construction with k = ceil(pi/4 sqrt(N/M)) iterations, (ii) rank every solution above every non-solution, (iii) give the solutions total probability > 1/2, "
             "and (iv) decode_output of each solution string is the solution in the argument type. A form whose expressions do not denote S is "
             "skipped (C01's matter). Non-trivial = |S| >= 2 or a non-integer argument type; distinct = distinct (n, S, form).",
     "bound": {"quick": "n=2,3 all sets (40), n=4 |S|<=2 (136); 7 forms x profiles", "thorough": "n=4 all 2516 sets, n=5 |S|<=2 (528 sets)"},
@@ -102,6 +102,35 @@ def distribution(alg):
     return svsim.sparse_marginal(st, oq), qc.num_qubits, len(qc.gates)
 
 
+_HB = {}
+
+
+def hand_built_distribution(n, S):
+    key = (n, tuple(S))
+    if key in _HB:
+        return _HB[key]
+    from qlasskit.qcircuit import gates as G
+    N = 1 << n
+    k = math.ceil(math.pi / 4.0 * math.sqrt(N / len(S)))
+    ret, ph = n, n + 1
+    oracle = []
+    for s in S:
+        zeros = [i for i in range(n) if not (s >> i) & 1]
+        oracle += [(G.X(), [i], None) for i in zeros] + [(G.MCX(n), list(range(n)) + [ret], None)] + [(G.X(), [i], None) for i in zeros]
+    oracle.append((G.CZ(), [ret, ph], None))
+    diff = []
+    for i in range(n):
+        diff += [(G.H(), [i], None), (G.X(), [i], None)]
+    diff += [(G.H(), [ph], None), (G.X(), [ph], None), (G.MCtrl(G.Z(), n), list(range(n)) + [ph], None)]
+    for i in range(n):
+        diff += [(G.X(), [i], None), (G.H(), [i], None)]
+    diff += [(G.X(), [ph], None), (G.H(), [ph], None)]
+    gl = [(G.H(), [i], None) for i in range(n)] + [(G.H(), [ph], None)] + (oracle + diff) * k
+    st = svsim.sparse_run(gl, n + 2, 0)
+    _HB[key] = svsim.sparse_marginal(st, list(range(n)))
+    return _HB[key]
+
+
 def run_case(case):
     from qlasskit.algorithms import Grover
     n, S, form = case["n"], tuple(case["S"]), case["form"]
@@ -152,6 +181,14 @@ def run_case(case):
         if dmax > 1e-9:
             bad.append({"why": "distribution differs from the ideal-oracle construction", "max_abs_diff": round(dmax, 6),
                         "p_solutions": round(sum(dist[s] for s in S), 6), "p_solutions_ideal": round(sum(rdist[s] for s in S), 6)})
+        # independent reference of the documented construction, assembled here gate by gate (not through Grover / QCircuit.repeat):
+        # H on the register and on a phase qubit, then k = ceil(pi/4 sqrt(N/M)) times [ideal oracle; CZ(ret, phase); diffuser over
+        # register and phase qubit]
+        hdist = hand_built_distribution(n, S)
+        amax = max(abs(a - b) for a, b in zip(dist, hdist))
+        if amax > 1e-9:
+            bad.append({"why": "distribution differs from the hand-assembled construction with ceil(pi/4 sqrt(N/M)) iterations", "max_abs_diff": round(amax, 6),
+                        "p_solutions": round(sum(dist[s] for s in S), 6), "p_solutions_reference": round(sum(hdist[s] for s in S), 6)})
         pin = min(dist[s] for s in S)
         pout = max(dist[x] for x in range(N) if x not in S)
         if not pin > pout + 1e-12:
